@@ -154,7 +154,6 @@ func widthVals(P *Program, caller *ssa.Function, v ssa.Value, site string, depth
 	return []widthSite{{Site: site, Expr: v.String()}}
 }
 
-
 // widthsReaching: the constants that reach parameter idx of fn through the module's static call sites
 // (interprocedural constant propagation over direct calls; globals count only if never re-assigned).
 func widthsReaching(P *Program, fn *ssa.Function, idx int, depth int) []widthSite {
